@@ -378,7 +378,7 @@ func (e *Env) missing(op *Op) bool {
 	switch op.Op {
 	case "pl_count":
 		return e.pls[op.Pl] == nil
-	case "it_replace", "it_count":
+	case "it_replace", "it_count", "it_close":
 		return e.its[op.It] == nil
 	}
 	return false
@@ -454,6 +454,14 @@ func (e *Env) Do(op *Op) {
 		e.emit(M{"ev": "skip", "op": "watchdog"})
 	case "it_count":
 		e.doItCount(op)
+	case "it_close":
+		e.doItClose(op)
+	case "it_close_last":
+		if e.lastIt != 0 && e.its[e.lastIt] != nil {
+			e.doItClose(&Op{Op: "it_close", It: e.lastIt})
+		} else {
+			e.emit(M{"ev": "skip", "op": op.Op})
+		}
 	case "stored":
 		e.doStored(op)
 	case "dv_open":
@@ -878,7 +886,11 @@ func (e *Env) doPlOpen(op *Op) int {
 		if pl == nil {
 			res = M{"kind": "nilresult"}
 		} else {
-			id = e.objID(pl, op.Pl)
+			var preO interface{}
+			if pre != nil {
+				preO = pre
+			}
+			id = e.aliasID(pl, preO, op.Prealloc, op.Pl)
 			e.pls[id] = pl
 			var c uint64
 			cl := e.call(func() { c = pl.Count() })
@@ -928,7 +940,11 @@ func (e *Env) doItOpen(op *Op) int {
 		if it == nil {
 			res = M{"kind": "nilresult"}
 		} else {
-			id = e.objID(it, op.It)
+			var preO interface{}
+			if pre != nil {
+				preO = pre
+			}
+			id = e.aliasID(it, preO, op.Prealloc, op.It)
 			e.its[id] = it
 			e.itFlags[id] = itFlags{op.Freq, op.Norm, op.Locs}
 			if o, ok := it.(segment.OptimizablePostingsIterator); ok {
@@ -1020,6 +1036,41 @@ func (e *Env) doItStep(op *Op) string {
 	}
 	e.emit(M{"ev": op.Op, "it": op.It, "d": op.D, "model_exp": me, "res": res})
 	return res["kind"].(string)
+}
+
+// aliasID names a returned object. An object the call was handed as prealloc keeps that handle. A KNOWN
+// object that was not handed in (the shared empty list/iterator - or an object the code recycled on its own)
+// gets a second handle: the model keeps the two uses independent, so interference between them shows up
+// as a contradicted result.
+func (e *Env) aliasID(o, pre interface{}, preID, want int) int {
+	if pre != nil && o == pre {
+		return preID
+	}
+	if _, known := e.objIDs[o]; known {
+		if want == 0 || e.handleTaken(want) {
+			e.nextObj++
+			want = e.nextObj
+		}
+		return want
+	}
+	return e.objID(o, want)
+}
+
+func (e *Env) handleTaken(h int) bool {
+	_, a := e.pls[h]
+	_, b := e.its[h]
+	return a || b
+}
+
+func (e *Env) doItClose(op *Op) {
+	it := e.its[op.It]
+	var err error
+	class := e.call(func() {
+		if c, ok := it.(interface{ Close() error }); ok {
+			err = c.Close()
+		}
+	})
+	e.emit(M{"ev": "it_close", "it": op.It, "res": resKind(class, err)})
 }
 
 func (e *Env) doItCount(op *Op) {
